@@ -112,7 +112,12 @@ func VerifHarness_C04_recover() {
 	r := verifNewSession(false, bs)
 	chunk := verifConc(ndInt("chunk", 0, 2))
 	r.s.ResendRequestChunkSize = chunk
-	T := ndInt("T", verifSeqLo(), 40)
+	// quick: the starting number is one symbolic value of a narrow range (the event order, chunking and gap carry
+	// the case analysis; C04_detect keeps the numbers fully symbolic); thorough: 1..40
+	T := ndInt("T", 20, 22)
+	if verifTier() == 1 {
+		T = ndInt("T", 1, 40)
+	}
 	r.setCounters(T, 5)
 	r.verifLoggedOnState(stInSession, T)
 	gap := verifConc(ndInt("gap", 1, 2+verifTier()))
@@ -134,7 +139,17 @@ func VerifHarness_C04_recover() {
 			st0, recovering = p.sessionState.(resendState)
 		}
 		curEnd := st0.currentResendRangeEnd
-		switch verifConc(ndInt("event", 0, 4)) {
+		switch verifConc(ndInt("event", 0, 5)) {
+		case 5:
+			// the peer's live traffic may itself contain a gap fill (it skips administrative numbers): it arrives
+			// early, is kept like any other message, and moves the expected number by more than one when its turn comes
+			verifCase("live-gapfill-above")
+			span := verifConc(ndInt("live-span", 1, 2))
+			g := r.inbound("4", highest+1)
+			g.Body.SetInt(tagNewSeqNo, highest+1+span)
+			g.Body.SetBool(tagGapFillFlag, true)
+			r.s.fixMsgIn(r.s, g)
+			highest += span
 		case 0:
 			verifCase("replay-next")
 			verifAssume(before < S || before > highest)
@@ -200,6 +215,11 @@ func VerifHarness_C04_recover() {
 	r.checkDeliveries("recover")
 	// if every missing number has arrived, everything kept was delivered and the session is back to normal
 	T1 := r.st.NextTargetMsgSeqNum()
+	// leaving recovery means nothing received is still waiting: the session may only be back to normal when it
+	// expects one past the highest message received
+	if k1 := verifStateKind(r.s.State); k1 == stInSession || k1 == stPendingInSession {
+		verifAssert(T1 == highest+1, "recover-back-to-normal-only-when-nothing-kept-is-pending")
+	}
 	if T1 > highest && r.s.IsLoggedOn() {
 		verifAssert(verifStateKind(r.s.State) == stInSession || verifStateKind(r.s.State) == stPendingInSession, "recover-returns-to-normal-when-complete")
 		verifAssert(T1 == highest+1, "recover-expects-one-past-highest-received")
